@@ -503,10 +503,24 @@ func cacheEntryMoves(p *Prog, r *Reporter) {
 		// element moves: c.filters[i] = c.filters[j] must be followed by indices[…] = i and happen only where i != j is known
 		// when the function also deletes from the map
 		deletes := false
-		for _, site := range callsIn(fn) {
-			if bi, ok := site.Common().Value.(*ssa.Builtin); ok && bi.Name() == "delete" {
-				if _, f, _, ok := loadedField(site.Common().Args[0]); ok && f == "indices" {
-					deletes = true
+		// the function itself, or a method of the cache that calls it (the removal written in a helper)
+		cands := []*ssa.Function{fn}
+		for _, g := range p.Funcs {
+			if g.Synthetic != "" || typeName(recvType(g)) != "Cache" {
+				continue
+			}
+			for _, site := range callsIn(g) {
+				if isCallTo(site, fn) {
+					cands = append(cands, g)
+				}
+			}
+		}
+		for _, g := range cands {
+			for _, site := range callsIn(g) {
+				if bi, ok := site.Common().Value.(*ssa.Builtin); ok && bi.Name() == "delete" {
+					if _, f, _, ok := loadedField(site.Common().Args[0]); ok && f == "indices" {
+						deletes = true
+					}
 				}
 			}
 		}
